@@ -228,3 +228,19 @@ _ROUND7.update({
 for _k, _add in _ROUND7.items():
     _t = CHECKS[_k]
     CHECKS[_k] = (_t[0], _t[1] + _add, *_t[2:])
+
+
+# --- additions of the eighth seeding round (DESIGN.md 15.8) -------------------------------------------------------------
+_ROUND8 = {
+    "C02": " Also a pool step whose invocations each wait for their own answer (requirement values differ) under the library's default waiter ids.",
+    "C04": " Also result events with a truth value of their own (a StopEvent subclass whose __bool__ is False), with and without a workflow timeout still pending.",
+    "C09": " Also expected lists in which a type occurs twice around another type ([A,B,A], [A,B,C,B]): the returned list is ordered as the expected list.",
+    "C12": " Interrupted executions of one step must come back in the order in which they had been started.",
+    "C13": " Also a TIME-bounded retry policy with the restarted server coming up after the policy's window (judged for stops after the last failure: every retry decision is then in the log).",
+    "C21": " Also appends that fail (a tick / event payload that cannot be serialized) followed by further appends to the same run.",
+    "C22": " Also two workflow instances configured from the same JSON file (ResourceConfig): one settings object per instance, shared by that instance's steps only.",
+    "C24": " A query that raises is judged as a wrong answer (not as a harness error).",
+}
+for _k, _add in _ROUND8.items():
+    _t = CHECKS[_k]
+    CHECKS[_k] = (_t[0], _t[1] + _add, *_t[2:])
